@@ -24,10 +24,13 @@
 (*     And(args) Or(args)              short-circuit, operands boolean     *)
 (*     Ite(c, a, b)                    Python  a if c else b               *)
 (*     Call(f, args)                   call of the named function f        *)
+(*     CallKw(f, args, kw)             the same with arguments bound by    *)
+(*                                     keyword (kw[j] = "" positional)     *)
 (*     Fn(f, args)                     opaque mathematical function (exp,  *)
 (*                                     log, sqrt, ...): Eval yields Skip - *)
 (*                                     only the Python side interprets it  *)
 (* Function table ft: a function from names to                             *)
+(*     FnDefD(params, defs, body)  with default values for the last params *)
 (*     FnDef(params, body)   [k |-> "fn", params |-> <<names>>, body |->   *)
 (*                            <<statements>>]  (statements: module PyFn)   *)
 (*     ConstDef(v)           [k |-> "const", v |-> rational]               *)
@@ -80,9 +83,14 @@ And(args)   == [k |-> "and", args |-> args]
 Or(args)    == [k |-> "or", args |-> args]
 Ite(c, a, b) == [k |-> "ite", c |-> c, a |-> a, b |-> b]
 Call(f, args) == [k |-> "call", name |-> f, args |-> args]
+\* a call whose arguments are bound by keyword: kw[j] = "" for a positional argument (these come first, as in
+\* Python), otherwise the parameter name argument j is bound to.  A call node without field kw is all-positional.
+CallKw(f, args, kw) == [k |-> "call", name |-> f, args |-> args, kw |-> kw]
 Fn(f, args)   == [k |-> "fn", name |-> f, args |-> args]
 
 FnDef(params, body) == [k |-> "fn", params |-> params, body |-> body]
+\* defs: default values (rationals) of the LAST Len(defs) parameters; a definition without field defs has none
+FnDefD(params, defs, body) == [k |-> "fn", params |-> params, body |-> body, defs |-> defs]
 ConstDef(v)         == [k |-> "const", v |-> v]
 
 BinOps   == {"add", "sub", "mul", "div", "pow", "floordiv", "mod"}
@@ -109,6 +117,31 @@ CmpHolds(op, a, b) ==
       [] op = "ge" -> RLe(b, a)
       [] op = "eq" -> a = b
       [] op = "ne" -> a # b
+
+\* ---- binding of call arguments to parameters (Python: positional first, then by NAME, then defaults) ----------
+KwOf(e)   == IF "kw" \in DOMAIN e THEN e.kw ELSE [j \in DOMAIN e.args |-> ""]
+DefsOf(f) == IF "defs" \in DOMAIN f THEN f.defs ELSE <<>>
+NPos(e)   == Cardinality({j \in DOMAIN e.args : KwOf(e)[j] = ""})
+KwIdx(e, x) == {j \in DOMAIN e.args : KwOf(e)[j] = x}
+FirstDef(f) == Len(f.params) - Len(DefsOf(f)) + 1            \* index of the first parameter that has a default
+\* the call is well-formed for f: no surplus positional argument, every keyword names a parameter that is not
+\* already bound positionally, no keyword twice, every remaining parameter has a default (else: TypeError)
+BindOk(f, e) ==
+    LET np == NPos(e)
+        P == Len(f.params)
+        kw == KwOf(e)
+    IN /\ np <= P
+       /\ \A j \in DOMAIN e.args : (kw[j] = "") = (j <= np)
+       /\ \A j \in DOMAIN e.args : kw[j] # "" =>
+              /\ \E m \in (np + 1)..P : f.params[m] = kw[j]
+              /\ Cardinality(KwIdx(e, kw[j])) = 1
+       /\ \A m \in (np + 1)..P : KwIdx(e, f.params[m]) # {} \/ m >= FirstDef(f)
+\* index into e.args of the argument bound to parameter m, 0 when the default is used (requires BindOk)
+ArgFor(f, e, m) ==
+    IF m <= NPos(e) THEN m
+    ELSE IF KwIdx(e, f.params[m]) # {} THEN CHOOSE j \in KwIdx(e, f.params[m]) : TRUE
+    ELSE 0
+ParamIdx(f, x) == CHOOSE m \in DOMAIN f.params : f.params[m] = x
 
 \* ---- meaning ---------------------------------------------------------------------------
 RECURSIVE Eval(_, _, _), EvalSeq(_, _, _, _), EvalCmp(_, _, _, _, _), EvalAnd(_, _, _, _),
@@ -177,10 +210,12 @@ Eval(e, env, ft) ==
             ELSE LET f  == ft[e.name]
                      vs == EvalSeq(e.args, 1, env, ft)
                  IN IF Len(vs) > 0 /\ BadV(vs[Len(vs)]) THEN vs[Len(vs)]
-                    ELSE IF Len(vs) # Len(f.params) THEN Undef
+                    ELSE IF ~BindOk(f, e) THEN Undef
                     ELSE LET r == RunFrom(f.body, 1,
                                           [x \in SeqRange(f.params) |->
-                                              vs[CHOOSE j \in DOMAIN f.params : f.params[j] = x]], ft)
+                                              LET m == ParamIdx(f, x)
+                                                  j == ArgFor(f, e, m)
+                                              IN IF j = 0 THEN DefsOf(f)[m - FirstDef(f) + 1] ELSE vs[j]], ft)
                          IN IF r.st = "none" THEN Undef ELSE r.v
       [] e.k = "fn" ->
             LET vs == EvalSeq(e.args, 1, env, ft)
